@@ -466,7 +466,50 @@ def run(ctx):
                 bad7 = (bv, got7)
                 break
     else:
-        bad7 = ("-", "no match on the byte read")
+        # combinator form: `byte.filter(u8::is_ascii).map_or(REPLACEMENT, char::from)` - the returned expression is evaluated with the
+        # byte read bound to Some(b); the functions handed to filter / map_or are applied through the same summaries
+        from .. import formula as _f
+        ret_e = rcf.local_expr(0, 14, stop={"named"})
+        PRED = {"is_ascii": lambda x: x < 128, "is_ascii_control": lambda x: x < 32 or x == 127, "is_ascii_graphic": lambda x: 33 <= x <= 126}
+        def apply_fn(fe, v):
+            nm = str(fe[1]) if isinstance(fe, tuple) and fe and fe[0] == "fn" else None
+            if nm is None:
+                raise _f.Unknown("function value")
+            m_ = re.search(r"<impl u8>::(\w+)$", nm)
+            if m_ and m_.group(1) in PRED:
+                return 1 if PRED[m_.group(1)](v) else 0
+            if re.search(r"From<u8> for (char|u16|u32|usize)>::from$", nm):
+                return v
+            raise _f.Unknown("call of " + nm)
+        def ev7(e, b_):
+            e = kit.strip_refs(e)
+            if e[0] == "local" and "Option<u8>" in rcf.local_ty(e[1]):
+                return ("Some", b_)
+            if e[0] == "const":
+                return e[1]
+            if e[0] == "cast":
+                return ev7(e[3], b_)
+            if e[0] == "call" and str(e[1]).endswith("Option::<T>::filter") and len(e[2]) == 2:
+                o = ev7(e[2][0], b_)
+                return o if isinstance(o, tuple) and o[0] == "Some" and apply_fn(e[2][1], o[1]) else ("None",)
+            if e[0] == "call" and str(e[1]).endswith("Option::<T>::map_or") and len(e[2]) == 3:
+                o = ev7(e[2][0], b_)
+                return apply_fn(e[2][2], o[1]) if isinstance(o, tuple) and o[0] == "Some" else ev7(e[2][1], b_)
+            if e[0] == "call" and str(e[1]).endswith("Option::<T>::map") and len(e[2]) == 2:
+                o = ev7(e[2][0], b_)
+                return ("Some", apply_fn(e[2][1], o[1])) if isinstance(o, tuple) and o[0] == "Some" else ("None",)
+            if e[0] == "call" and str(e[1]).endswith("Option::<T>::unwrap_or") and len(e[2]) == 2:
+                o = ev7(e[2][0], b_)
+                return o[1] if isinstance(o, tuple) and o[0] == "Some" else ev7(e[2][1], b_)
+            raise _f.Unknown(expr_str(e, 60))
+        try:
+            for bv in range(128):
+                got7 = ev7(ret_e, bv)
+                if got7 != bv:
+                    bad7 = (bv, got7)
+                    break
+        except _f.Unknown as ex7:
+            bad7 = ("-", "a result that could not be read (%s)" % ex7)
     ctx.oblig(bad7 is None, {"read_char": "every byte 0x00..0x7F is handed on unchanged"}, "decision evaluated on the 128 seven-bit values")
     if bad7 is not None:
         ctx.violation("input-value", rcf.file_line(), "read_char turns the input byte %s into %s: GETC/IN must hand the program the byte that was read (every 7-bit value unchanged)"
